@@ -17,44 +17,44 @@ import (
 type EK int
 
 const (
-	EUnknown EK = iota
-	ECall       // Fn / Method, Args ; Recv as Args[0] for methods
-	EExtract    // X (call), Idx
-	EField      // X base, Var
-	EConst      // Val
-	EParam      // Name, Idx
-	EFree       // Name (captured variable) ; X = resolved binding when known
-	EBin        // Op, X, Y
-	EUn         // Op, X
-	EPhi        // Args
-	EGlobal     // Obj
-	EAlloc      // local cell with several stores: Args = stored values
-	EIndex      // X[Y]
-	ELookup     // map X[Y]
-	ESlice      // X[lo:hi:max] Args
-	EConvert    // X
-	ETypeAssert // X
-	EFunc       // function value: Fn
-	EClosure    // Fn + bindings
-	EMake       // make(...) / new: fresh allocation
-	ERange      // range/next
+	EUnknown    EK = iota
+	ECall          // Fn / Method, Args ; Recv as Args[0] for methods
+	EExtract       // X (call), Idx
+	EField         // X base, Var
+	EConst         // Val
+	EParam         // Name, Idx
+	EFree          // Name (captured variable) ; X = resolved binding when known
+	EBin           // Op, X, Y
+	EUn            // Op, X
+	EPhi           // Args
+	EGlobal        // Obj
+	EAlloc         // local cell with several stores: Args = stored values
+	EIndex         // X[Y]
+	ELookup        // map X[Y]
+	ESlice         // X[lo:hi:max] Args
+	EConvert       // X
+	ETypeAssert    // X
+	EFunc          // function value: Fn
+	EClosure       // Fn + bindings
+	EMake          // make(...) / new: fresh allocation
+	ERange         // range/next
 )
 
 type Expr struct {
-	K      EK
-	V      ssa.Value
-	Fn     *types.Func // static callee (origin for generics)
-	SFn    *ssa.Function
-	Method string // for dynamic calls: interface method name
-	Var    *types.Var
-	Obj    types.Object
-	Val    constant.Value
-	IsNil  bool
-	Op     token.Token
-	X, Y   *Expr
-	Args   []*Expr
-	Idx    int
-	Name   string
+	K       EK
+	V       ssa.Value
+	Fn      *types.Func // static callee (origin for generics)
+	SFn     *ssa.Function
+	Method  string // for dynamic calls: interface method name
+	Var     *types.Var
+	Obj     types.Object
+	Val     constant.Value
+	IsNil   bool
+	Op      token.Token
+	X, Y    *Expr
+	Args    []*Expr
+	Idx     int
+	Name    string
 	CommaOk bool
 }
 
